@@ -239,7 +239,9 @@ def set_frameset_q(s0: int, s1: int, nfr: int, start: int, stop: int, step: int,
     post: _
     """
     s0, s1, nfr, start, stop, step = 1, 2, mark.pick(nfr, 2, 3), mark.pick(start, 0, 8), mark.pick(stop, 1, 9), mark.pick(step, 1, 3)
-    return _set_frameset(s0, s1, nfr, start, stop, step, mark.pickb(indirect), mark.pickb(both), mark.pickb(second))
+    indirect, both, second = mark.pickb(indirect), mark.pickb(both), mark.pickb(second)
+    with mark.untraced():
+        return _set_frameset(s0, s1, nfr, start, stop, step, indirect, both, second)
 
 
 def set_frameset(s0: int, s1: int, nfr: int, start: int, stop: int, step: int, indirect: bool, both: bool, second: bool) -> bool:
@@ -252,4 +254,209 @@ def set_frameset(s0: int, s1: int, nfr: int, start: int, stop: int, step: int, i
     post: _
     """
     s0, s1, nfr, start, stop, step = mark.pick(s0, 1, 2), mark.pick(s1, 1, 2), mark.pick(nfr, 2, 3), mark.pick(start, 0, 8), mark.pick(stop, 1, 9), mark.pick(step, 1, 3)
-    return _set_frameset(s0, s1, nfr, start, stop, step, mark.pickb(indirect), mark.pickb(both), mark.pickb(second))
+    indirect, both, second = mark.pickb(indirect), mark.pickb(both), mark.pickb(second)
+    with mark.untraced():
+        return _set_frameset(s0, s1, nfr, start, stop, step, indirect, both, second)
+
+
+# ---------------------------------------------------------------------------------------------------- end to end: reference-encoded LIS file -> FileIndex -> LogPass -> real FrameSet
+
+from engine.symio import SymFile, shim_structs
+from spec import lis_lr_ref as L
+from TotalDepth.LIS.core import File, FileIndexer, PhysRec, TifMarker, LogiRec
+
+CHS = [(b'DEPT', b'FEET', 4, 1, 73), (b'GR  ', b'GAPI', 4, 1, 73), (b'SP  ', b'MV  ', 2, 1, 79)]
+
+
+def _build(frames_per_rec, indirect, tif, table, maxpl):
+    chs = CHS[1:] if indirect else CHS
+    lrs = [L.file_head_tail(128)]
+    kinds = [128]
+    if table:
+        lrs.append(L.table_record(34, b'CONS', [(b'BS  ', [(b'VALU', 73, L.i32(85), b'IN  ')])]))
+        kinds.append(34)
+    lrs.append(L.dfsr(chs, indirect))
+    kinds.append(64)
+    g = 0
+    model = []
+    for n in frames_per_rec:
+        frames = []
+        x0 = 1000 - 60 * g
+        for f in range(n):
+            x = 1000 - 60 * g
+            row = [x, 7 * g + 1, -g]
+            model.append(row)
+            fb = (b'' if indirect else L.i32(x)) + L.i32(row[1]) + L.i16(row[2])
+            frames.append(fb)
+            g += 1
+        lrs.append(L.data_record(frames, L.i32(x0) if indirect else None))
+    lrs.append(L.file_head_tail(129))
+    kinds.append(129)
+    data, pos = L.physical(lrs, tif, maxpl)
+    return data, pos, kinds, model
+
+
+def _positions_of(kinds, pos, nrec):
+    """positions of the indexed (non-data) records: data records sit between the DFSR and the trailer."""
+    out = []
+    i = 0
+    for k in kinds:
+        out.append(pos[i])
+        i += 1
+        if k == 64:
+            i += nrec
+    return out
+
+
+def index_structure(nrec: int, f0: int, f1: int, f2: int, indirect: bool, tif: bool, table: bool, split: bool) -> bool:
+    """
+    pre: 1 <= nrec <= 3
+    pre: 1 <= f0 <= 3 and 1 <= f1 <= 3 and 1 <= f2 <= 3
+    pre: PART < 0 or (8 if indirect else 0) + (4 if tif else 0) + (2 if table else 0) + (1 if split else 0) == PART
+    post: _
+    """
+    nrec, f0, f1, f2 = mark.pick(nrec, 1, 3), mark.pick(f0, 1, 3), mark.pick(f1, 1, 3), mark.pick(f2, 1, 3)
+    indirect, tif, table, split = mark.pickb(indirect), mark.pickb(tif), mark.pickb(table), mark.pickb(split)
+    with mark.untraced():
+        return _index_structure(nrec, f0, f1, f2, indirect, tif, table, split)
+
+
+def _index_structure(nrec, f0, f1, f2, indirect, tif, table, split):
+    fpr = [f0, f1, f2][:nrec]
+    data, pos, kinds, model = _build(fpr, indirect, tif, table, 24 if split else None)
+    f = File.FileRead(SymFile(data), 'id', False)
+    idx = FileIndexer.FileIndex(f)
+    mark.hit()
+    if list(idx.lrTypeS) != kinds:
+        return False
+    if [e.tell for e in idx] != _positions_of(kinds, pos, nrec):
+        return False
+    if table and idx[1].name != b'CONS':
+        return False
+    passes = list(idx.genLogPasses())
+    if len(passes) != 1 or idx.numLogPasses() != 1:
+        return False
+    lp = passes[0].logPass
+    tot = 0
+    for n in fpr:
+        tot += n
+    if lp.rle.totalFrames() != tot:
+        return False
+    if lp.xAxisFirstVal != 1000:
+        return False
+    # every frame number maps to the record that holds it
+    dpos = pos[len(kinds) - 2 + 0:len(kinds) - 2 + nrec] if False else pos[kinds.index(64) + 1:kinds.index(64) + 1 + nrec]
+    g = 0
+    for r, n in enumerate(fpr):
+        for o in range(n):
+            if lp.rle.tellLrForFrame(g) != (dpos[r], o):
+                return False
+            g += 1
+    even = all(n == fpr[0] for n in fpr)
+    if nrec > 1 and even and lp.xAxisLastVal != 1000 - 60 * (tot - 1):
+        return False
+    return True
+
+
+def _known_x_var(sel, fpr, i):
+    starts = []
+    g = 0
+    for n in fpr:
+        starts.append(g)
+        g += n
+
+    def rec_of(fr):
+        r = 0
+        for k, s in enumerate(starts):
+            if fr >= s:
+                r = k
+        return r
+    rec = rec_of(sel[i])
+    first_i = None
+    for k, gg in enumerate(sel):
+        if rec_of(gg) == rec:
+            first_i = k
+            break
+    return first_i >= 1 and sel[first_i] - starts[rec] >= 1
+
+
+def _load(fpr, indirect, tif, start, stop, step, m1, m2, second):
+    data, pos, kinds, model = _build(fpr, indirect, tif, False, None)
+    sf = SymFile(data)
+    f = File.FileRead(sf, 'id', False)
+    idx = FileIndexer.FileIndex(f)
+    lp = list(idx.genLogPasses())[0].logPass
+    nch = 2 if indirect else 3
+    # external channel indexes: channel 0 = X for direct X files
+    chans = [c for c, m in ((nch - 2, m1), (nch - 1, m2)) if m]
+    if not indirect:
+        chans = [0] + chans
+    if second:
+        lp.setFrameSet(f, slice(0, len(model), 2), None)
+    sf.reads = []
+    lp.setFrameSet(f, slice(start, stop, step), chans)
+    mark.hit()
+    fs = lp.frameSet
+    sel = list(range(start, stop, step))
+    if fs.numFrames != len(sel):
+        return False
+    excl = 'setframeset_implied_x_after_record_boundary' in os.environ.get('VERIF_EXCLUDE', '')
+    cols = [c for c, m in ((1, m1), (2, m2)) if m]
+    if not indirect:
+        cols = [0] + cols
+    for i, g in enumerate(sel):
+        row = [float(v) for v in fs.frame(i)]
+        if row != [float(model[g][c]) for c in cols]:
+            return False
+        if indirect:
+            if fs.xAxisValue(i) != model[g][0] and not (excl and _known_x_var(sel, fpr, i)):
+                return False
+        elif fs.xAxisValue(i) != model[g][0]:
+            return False
+    # reads only inside the data records that contain requested frames
+    dpos = pos[kinds.index(64) + 1:kinds.index(64) + 1 + len(fpr)]
+    ends = dpos[1:] + [pos[kinds.index(64) + 1 + len(fpr)]]
+    need = []
+    g = 0
+    for r, n in enumerate(fpr):
+        if any(g <= s < g + n for s in sel):
+            need.append((dpos[r], ends[r]))
+        g += n
+    for a, b in sf.reads:
+        if not any(lo <= a and b <= hi for lo, hi in need):
+            return False
+    return True
+
+
+def load_slices(f0: int, f1: int, f2: int, indirect: bool, tif: bool, start: int, stop: int, step: int, m1: bool, m2: bool, second: bool) -> bool:
+    """
+    pre: 1 <= f0 <= 2 and 2 <= f1 <= 3 and 1 <= f2 <= 2
+    pre: 0 <= start < stop <= f0 + f1 + f2 and 1 <= step <= 3
+    pre: m1 or m2
+    pre: PART < 0 or (16 if indirect else 0) + (8 if tif else 0) + (4 if second else 0) + (2 if m1 else 0) + (1 if m2 else 0) == PART
+    post: _
+    """
+    f0, f1, f2 = mark.pick(f0, 1, 2), mark.pick(f1, 2, 3), mark.pick(f2, 1, 2)
+    start, stop, step = mark.pick(start, 0, 6), mark.pick(stop, 1, 7), mark.pick(step, 1, 3)
+    indirect, tif, m1, m2, second = mark.pickb(indirect), mark.pickb(tif), mark.pickb(m1), mark.pickb(m2), mark.pickb(second)
+    with mark.untraced():
+        return _load([f0, f1, f2], indirect, tif, start, stop, step, m1, m2, second)
+
+
+def load_slices_q(f1: int, indirect: bool, tif: bool, start: int, stop: int, step: int, m1: bool, m2: bool, second: bool) -> bool:
+    """
+    pre: 2 <= f1 <= 3
+    pre: 0 <= start < stop <= 3 + f1 and 1 <= step <= 3
+    pre: m1 or m2
+    pre: PART < 0 or (16 if indirect else 0) + (8 if tif else 0) + (4 if second else 0) + (2 if m1 else 0) + (1 if m2 else 0) == PART
+    post: _
+    """
+    f1 = mark.pick(f1, 2, 3)
+    start, stop, step = mark.pick(start, 0, 5), mark.pick(stop, 1, 6), mark.pick(step, 1, 3)
+    indirect, tif, m1, m2, second = mark.pickb(indirect), mark.pickb(tif), mark.pickb(m1), mark.pickb(m2), mark.pickb(second)
+    with mark.untraced():
+        return _load([2, f1, 1], indirect, tif, start, stop, step, m1, m2, second)
+
+
+shim_structs(PhysRec)
+shim_structs(TifMarker)
